@@ -18,6 +18,14 @@ pub(crate) const CRC: crc::Crc<u32> = crc::Crc::<u32>::new(&CUSTOM_ALG);
 
 /// This check a "full" slice (containing data AND crc)
 pub(crate) fn assert_slice_crc(buf: &[u8]) -> Result<()> {
+    if buf.len() < 4 {
+        // A short read (truncated file) can hand us less than a checksum.
+        return Err(CorruptedFile {
+            buf: buf.to_vec(),
+            found_checksum: [0; 4],
+        }
+        .into());
+    }
     let data_size = buf.len() - 4;
     let slice = &buf[..data_size];
     let mut digest = CRC.digest();
